@@ -33,6 +33,44 @@ from twosigma.memento.serialization import MementoCodec
 from twosigma.memento.types import MementoFunctionType
 
 
+def _stable_repr(o) -> str:
+    """
+    Process-independent description of a value (a default parameter value, a global
+    variable) that keeps what the code can tell apart: container types, key types, order.
+
+    """
+    if isinstance(o, MementoFunctionType):
+        # Described by name only: its version is not settled while its module is still
+        # being imported (helpers defined further down are missing), and it reaches the
+        # version of this function through the dependency on its name anyway
+        return "MementoFunction({}, {}, {})".format(
+            o.qualified_name_without_version,
+            _stable_repr(list(o.partial_args or ())),
+            _stable_repr(dict(o.partial_kwargs or {})),
+        )
+    # Built-in containers are described structurally, other values by the argument codec
+    # where it knows them, by repr() for value types whose repr() is the same in every
+    # process, and by their type only otherwise.
+    if isinstance(o, (set, frozenset)):
+        items = sorted(_stable_repr(x) for x in o)
+    elif isinstance(o, (tuple, list)):
+        items = [_stable_repr(x) for x in o]
+    elif isinstance(o, dict):
+        items = sorted(_stable_repr(k) + ":" + _stable_repr(v) for (k, v) in o.items())
+    else:
+        try:
+            return json.dumps(MementoCodec.encode_arg(o), sort_keys=True)
+        except (TypeError, ValueError):
+            pass
+        if isinstance(
+            o,
+            (bytes, bytearray, complex, range, datetime.time, datetime.timedelta, Decimal),
+        ):
+            return type(o).__qualname__ + "(" + repr(o) + ")"
+        return type(o).__module__ + ":" + type(o).__qualname__
+    return type(o).__qualname__ + "(" + ", ".join(items) + ")"
+
+
 def fn_code_hash(fn: Callable, salt: str = None, environment: bytes = None) -> str:
     """
     Compute a hex digest of the code for a function.
@@ -79,8 +117,8 @@ def fn_code_hash(fn: Callable, salt: str = None, environment: bytes = None) -> s
                 # Default parameter values live on the function, not on its code object
                 attr_values.append(
                     [
-                        [stable_repr(x) for x in defaults],
-                        sorted([k, stable_repr(v)] for (k, v) in kwdefaults.items()),
+                        [_stable_repr(x) for x in defaults],
+                        sorted([k, _stable_repr(v)] for (k, v) in kwdefaults.items()),
                     ]
                 )
             if salt:
@@ -92,39 +130,6 @@ def fn_code_hash(fn: Callable, salt: str = None, environment: bytes = None) -> s
             return "frozenset({" + ", ".join(sorted(repr(x) for x in o)) + "})"
         else:
             return repr(o)
-
-    def stable_repr(o):
-        """Process-independent description of a default parameter value"""
-        if isinstance(o, MementoFunctionType):
-            # Described by name only: its version is not settled while its module is still
-            # being imported (helpers defined further down are missing), and it reaches the
-            # version of this function through the dependency on its name anyway
-            return "MementoFunction({}, {}, {})".format(
-                o.qualified_name_without_version,
-                stable_repr(list(o.partial_args or ())),
-                stable_repr(dict(o.partial_kwargs or {})),
-            )
-        # Built-in containers are described structurally, other values by the argument codec
-        # where it knows them, by repr() for value types whose repr() is the same in every
-        # process, and by their type only otherwise.
-        if isinstance(o, (set, frozenset)):
-            items = sorted(stable_repr(x) for x in o)
-        elif isinstance(o, (tuple, list)):
-            items = [stable_repr(x) for x in o]
-        elif isinstance(o, dict):
-            items = sorted(stable_repr(k) + ":" + stable_repr(v) for (k, v) in o.items())
-        else:
-            try:
-                return json.dumps(MementoCodec.encode_arg(o), sort_keys=True)
-            except (TypeError, ValueError):
-                pass
-            if isinstance(
-                o,
-                (bytes, bytearray, complex, range, datetime.time, datetime.timedelta, Decimal),
-            ):
-                return type(o).__qualname__ + "(" + repr(o) + ")"
-            return type(o).__module__ + ":" + type(o).__qualname__
-        return type(o).__qualname__ + "(" + ", ".join(items) + ")"
 
     if isinstance(fn, MementoFunctionType):
         memento_fn = fn  # type: MementoFunctionType
@@ -827,12 +832,13 @@ class GlobalVariableHashRule(HashRule):
     @staticmethod
     def _serialize_value(var: object) -> Optional[bytes]:
         try:
-            return json.dumps(MementoCodec.encode_arg(var), sort_keys=True).encode(
-                "utf-8"
-            )
+            json.dumps(MementoCodec.encode_arg(var), sort_keys=True)
         except (TypeError, ValueError):
             # not a type that Memento understands or can hash. Do not hash.
             return None
+        # The JSON form of the argument codec makes a tuple look like a list and the key 1
+        # like the key "1": describe the value so that what the code can tell apart differs
+        return _stable_repr(var).encode("utf-8")
 
     def describe(self) -> str:
         return "{} {}".format(super().describe(), self.last_value.decode("utf-8"))
